@@ -80,3 +80,28 @@ Definition auth_go_eq (a b : auth) : bool :=
 (* ---- GCARegistration ---------------------------------------------------- *)
 Definition reg_signing_bytes (gcakey : bytes) : bytes :=
   ascii_bytes "GCARegistration" ++ pad 32 gcakey.
+
+(* ---- appended for C15: outcome of the stream / variable-length decoders --- *)
+(* DOk value consumed-bytes | refused with an error | the runtime dies with a fatal
+   error (out of memory; not recoverable) | the model's fuel ran out *)
+Inductive dres (A : Type) : Type :=
+| DOk (v : A) (consumed : nat)
+| DErr
+| DFatal
+| DFuel.
+Arguments DOk {A} v consumed.
+Arguments DErr {A}.
+Arguments DFatal {A}.
+Arguments DFuel {A}.
+
+(* registration: the signed value is the 32-byte GCA key *)
+Definition reg_wf (gcakey : bytes) : Prop := length gcakey = 32%nat.
+
+(* the six signed message types and their signing-byte prefixes (README: "the
+   structure's name as an ASCII prefix") *)
+Definition prefix_report : string := "EquipmentReport".
+Definition prefix_auth : string := "EquipmentAuthorization".
+Definition prefix_migration : string := "EquipmentMigration".
+Definition prefix_aserver : string := "AuthorizedServer".
+Definition prefix_stats : string := "AllDeviceStats".
+Definition prefix_reg : string := "GCARegistration".
